@@ -319,6 +319,15 @@ func (b *backend) valueClass(h *handler, env *localEnv, e ast.Expr) string {
 		return "const:" + tv.Value.ExactString()
 	}
 	switch x := e.(type) {
+	case *ast.CallExpr:
+		// int64(len(records)) where records collects one entry per scanned row counts the rows
+		if tv, ok := info.Types[x.Fun]; ok && tv.IsType() && len(x.Args) == 1 {
+			if inner, ok := ast.Unparen(x.Args[0]).(*ast.CallExpr); ok && exprString(inner.Fun) == "len" && len(inner.Args) == 1 {
+				if b.valueClass(h, env, inner.Args[0]) == "rows:append,top:zero" {
+					return "rows:++,top:=int64(0)"
+				}
+			}
+		}
 	case *ast.Ident:
 		obj := info.Uses[x]
 		defs := env.defs[obj]
@@ -662,14 +671,110 @@ func ruleExecute(c *Ctx) {
 			}
 			return true
 		})
+		// the begin / commit / rollback skeleton may live in a method of the worker that Execute hands
+		// its body to (`w.withTx(func(tx *sql.Tx) error { … performCommands(tx, transactions) … })`)
+		var bodyParam types.Object // in the wrapper: the function parameter that stands for performCommands
+		if nBegin == 0 {
+			if wfd, lit, wcall := txWrapperOf(b.Pkg, fd); wfd != nil {
+				// Execute: success only when the wrapper returned nil; the literal hands the wrapper's tx
+				// and Execute's transactions to performCommands and returns its error
+				sig := info.Defs[fd.Name].(*types.Func).Type().(*types.Signature)
+				litOK := false
+				var litTx types.Object
+				if lit.Type.Params != nil && len(lit.Type.Params.List) == 1 && len(lit.Type.Params.List[0].Names) == 1 {
+					litTx = info.Defs[lit.Type.Params.List[0].Names[0]]
+				}
+				nP := 0
+				for _, call := range callsIn(lit.Body) {
+					if fn, ok := calleeOf(info, call).(*types.Func); ok && fn == info.Defs[b.Perform.Name] {
+						nP++
+						if len(call.Args) == 2 && litTx != nil && isObj(info, call.Args[0], litTx) {
+							if id, ok := ast.Unparen(call.Args[1]).(*ast.Ident); ok && sig.Params().Len() == 1 && info.Uses[id] == sig.Params().At(0) {
+								litOK = true
+							}
+						}
+					}
+				}
+				// the literal returns performCommands' error on every path
+				retOK := true
+				ast.Inspect(lit.Body, func(n ast.Node) bool {
+					if rs, ok := n.(*ast.ReturnStmt); ok {
+						if len(rs.Results) != 1 || exprString(rs.Results[0]) == "nil" {
+							retOK = false
+						}
+					}
+					return true
+				})
+				c.check(nP == 1 && litOK && retOK, key+"/all-in-one", fd.Pos(), "every transaction of the batch runs inside that one SQL transaction", "Execute does not hand all transactions to one performCommands call on the wrapper's SQL transaction (or swallows its error)")
+				// Execute's own returns
+				eg := buildCFG(b.Pkg, fd.Body)
+				eedge := errEdgeFacts(info, func(call *ast.CallExpr) string {
+					if call == wcall {
+						return "wrapper"
+					}
+					return ""
+				})
+				erets := mustFacts(eg, func(ast.Node) []string { return nil }, eedge, func(n ast.Node) bool { _, ok := n.(*ast.ReturnStmt); return ok })
+				nS := 0
+				for n, facts := range erets {
+					rs := n.(*ast.ReturnStmt)
+					if len(rs.Results) == 2 && exprString(rs.Results[1]) == "nil" {
+						nS++
+						c.check(facts["ok:wrapper"], key+"/commit-before-ack/caller", rs.Pos(), "Execute reports success only when the transaction wrapper returned nil", "Execute returns success on a path where the transaction wrapper did not return nil")
+					}
+				}
+				c.check(nS >= 1, key+"/has-success-return", fd.Pos(), "Execute has a success return", "Execute has no `return results, nil`")
+				// from here on the wrapper is the transaction function
+				fd = wfd
+				for _, f := range wfd.Type.Params.List {
+					for _, nm := range f.Names {
+						if _, isFn := info.Defs[nm].Type().Underlying().(*types.Signature); isFn {
+							bodyParam = info.Defs[nm]
+						}
+					}
+				}
+				nBegin = 0
+				ast.Inspect(fd.Body, func(n ast.Node) bool {
+					as, ok := n.(*ast.AssignStmt)
+					if !ok || len(as.Rhs) != 1 {
+						return true
+					}
+					call, ok := ast.Unparen(as.Rhs[0]).(*ast.CallExpr)
+					if !ok {
+						return true
+					}
+					if fn, ok := calleeOf(info, call).(*types.Func); ok && fn.Pkg() != nil && fn.Pkg().Path() == "database/sql" && (fn.Name() == "BeginTx" || fn.Name() == "Begin") {
+						nBegin++
+						if id, ok := as.Lhs[0].(*ast.Ident); ok {
+							txObj = info.Defs[id]
+						}
+					}
+					return true
+				})
+			}
+		}
 		c.check(nBegin == 1 && txObj != nil, key+"/one-transaction", fd.Pos(), "Execute begins exactly one SQL transaction", fmt.Sprintf("Execute begins %d SQL transactions", nBegin))
 		if txObj == nil {
 			continue
+		}
+		isPerform := func(call *ast.CallExpr) bool {
+			if bodyParam != nil {
+				return isObj(info, call.Fun, bodyParam)
+			}
+			fn, ok := calleeOf(info, call).(*types.Func)
+			return ok && fn == info.Defs[b.Perform.Name]
 		}
 		// performCommands is called once, with that tx and the transactions parameter
 		nPerf := 0
 		okArgs := false
 		for _, call := range callsIn(fd.Body) {
+			if bodyParam != nil {
+				if isPerform(call) {
+					nPerf++
+					okArgs = len(call.Args) == 1 && mentions(info, call.Args[0], txObj)
+				}
+				continue
+			}
 			if fn, ok := calleeOf(info, call).(*types.Func); ok && fn == info.Defs[b.Perform.Name] {
 				nPerf++
 				okArgs = len(call.Args) == 2 && mentions(info, call.Args[0], txObj)
@@ -681,12 +786,20 @@ func ruleExecute(c *Ctx) {
 				}
 			}
 		}
-		c.check(nPerf == 1 && okArgs, key+"/all-in-one", fd.Pos(), "every transaction of the batch runs inside that one SQL transaction", "Execute does not hand all transactions to one performCommands call on its own SQL transaction")
+		if bodyParam != nil {
+			c.check(nPerf == 1 && okArgs, key+"/wrapper-runs-body-once", fd.Pos(), "the wrapper runs its body once, on its transaction", "the transaction wrapper does not run its body exactly once on the transaction it began")
+		} else {
+			c.check(nPerf == 1 && okArgs, key+"/all-in-one", fd.Pos(), "every transaction of the batch runs inside that one SQL transaction", "Execute does not hand all transactions to one performCommands call on its own SQL transaction")
+		}
 
 		g := buildCFG(b.Pkg, fd.Body)
 		gen := func(n ast.Node) []string {
 			var out []string
 			for _, call := range callsIn(n) {
+				if bodyParam != nil && isPerform(call) {
+					out = append(out, "called:perform")
+					continue
+				}
 				fn, ok := calleeOf(info, call).(*types.Func)
 				if !ok {
 					continue
@@ -694,7 +807,7 @@ func ruleExecute(c *Ctx) {
 				if se, ok := ast.Unparen(call.Fun).(*ast.SelectorExpr); ok && mentions(info, se.X, txObj) {
 					out = append(out, "called:tx."+fn.Name())
 				}
-				if fn == info.Defs[b.Perform.Name] {
+				if isPerform(call) {
 					out = append(out, "called:perform")
 				}
 				if fn.Pkg() != nil && fn.Pkg().Path() == "database/sql" && strings.HasPrefix(fn.Name(), "Begin") {
@@ -713,15 +826,15 @@ func ruleExecute(c *Ctx) {
 			return out
 		}
 		edge := errEdgeFacts(info, func(call *ast.CallExpr) string {
+			if isPerform(call) {
+				return "perform"
+			}
 			fn, ok := calleeOf(info, call).(*types.Func)
 			if !ok {
 				return ""
 			}
 			if se, ok := ast.Unparen(call.Fun).(*ast.SelectorExpr); ok && mentions(info, se.X, txObj) {
 				return "tx." + fn.Name()
-			}
-			if fn == info.Defs[b.Perform.Name] {
-				return "perform"
 			}
 			if fn.Pkg() != nil && fn.Pkg().Path() == "database/sql" && strings.HasPrefix(fn.Name(), "Begin") {
 				return "begin"
@@ -737,13 +850,27 @@ func ruleExecute(c *Ctx) {
 		sort.Slice(retNodes, func(i, j int) bool { return retNodes[i].Pos() < retNodes[j].Pos() })
 		for i, rs := range retNodes {
 			facts := rets[rs]
-			if len(rs.Results) != 2 {
-				c.und(key+"/return", rs.Pos(), "return without two results")
+			wantResults := 2
+			if bodyParam != nil {
+				wantResults = 1
+			}
+			if len(rs.Results) != wantResults {
+				c.und(key+"/return", rs.Pos(), "return with an unexpected number of results")
 				continue
 			}
+			last := ast.Unparen(rs.Results[wantResults-1])
 			errIsNil := false
-			if id, ok := ast.Unparen(rs.Results[1]).(*ast.Ident); ok {
+			if id, ok := last.(*ast.Ident); ok {
 				_, errIsNil = info.Uses[id].(*types.Nil)
+			}
+			// `return tx.Commit()`: the outcome reported IS the commit's — success exactly when it succeeded
+			if call, ok := last.(*ast.CallExpr); ok && bodyParam != nil {
+				if se, ok := ast.Unparen(call.Fun).(*ast.SelectorExpr); ok && se.Sel.Name == "Commit" && mentions(info, se.X, txObj) {
+					nSucc++
+					o := c.check(facts["ok:perform"], key+"/commit-before-ack", rs.Pos(), "success is returned only after Commit returned nil", "the commit is attempted (and its outcome reported) on a path where the body did not succeed")
+					o.Path = facts.list()
+					continue
+				}
 			}
 			if errIsNil {
 				nSucc++
@@ -760,7 +887,11 @@ func ruleExecute(c *Ctx) {
 				o.Path = facts.list()
 			}
 		}
-		c.check(nSucc >= 1, key+"/has-success-return", fd.Pos(), "Execute has a success return", "Execute has no `return results, nil`")
+		if bodyParam == nil {
+			c.check(nSucc >= 1, key+"/has-success-return", fd.Pos(), "Execute has a success return", "Execute has no `return results, nil`")
+		} else {
+			c.check(nSucc >= 1, key+"/wrapper-commits", fd.Pos(), "the wrapper has a committing return", "the transaction wrapper never commits")
+		}
 		c.count("execute_returns", nSucc+nFail)
 	}
 }
@@ -1068,7 +1199,41 @@ func ruleSQLOrigin(c *Ctx) {
 			if s.SQLArg != nil {
 				_, _, holes, ok := b.sqlTextOf(s.SQLArg)
 				if !ok {
-					c.bad(key+"/constant-text", s.Pos, "SQL text is not a compile-time constant: "+exprString(s.SQLArg))
+					// the text is a parameter of a function of the package: constant iff every call
+					// site passes a constant
+					okSites := false
+					if fd := findFuncDecl(b.Pkg, s.Pos); fd != nil {
+						if pid, isId := ast.Unparen(s.SQLArg).(*ast.Ident); isId {
+							if pv, isVar := info.Uses[pid].(*types.Var); isVar && isParamVar(info, fd.Type, pv) {
+								idx := -1
+								k := 0
+								for _, f := range fd.Type.Params.List {
+									for _, nm := range f.Names {
+										if info.Defs[nm] == pv {
+											idx = k
+										}
+										k++
+									}
+								}
+								nCalls, allConst := 0, true
+								for _, cfd := range allFuncDecls(b.Pkg) {
+									if cfd.Body == nil {
+										continue
+									}
+									for _, call := range callsInDeep(cfd.Body) {
+										if calleeOf(info, call) == info.Defs[fd.Name] && idx >= 0 && idx < len(call.Args) {
+											nCalls++
+											if _, _, h2, ok2 := b.sqlTextOf(call.Args[idx]); !ok2 || len(h2) > 0 {
+												allConst = false
+											}
+										}
+									}
+								}
+								okSites = nCalls > 0 && allConst
+							}
+						}
+					}
+					c.check(okSites, key+"/constant-text", s.Pos, "SQL text is a parameter that every call site fills with a constant", "SQL text is not a compile-time constant: "+exprString(s.SQLArg))
 				} else if len(holes) > 0 {
 					fd := findFuncDecl(b.Pkg, s.Pos)
 					var cmdPar *types.Var
@@ -1141,7 +1306,7 @@ func ruleSQLOrigin(c *Ctx) {
 		}
 	}
 	c.count("sql_call_sites", nSites)
-	c.floor("database/sql call sites", nSites, 90)
+	c.floor("database/sql call sites", nSites, 50)
 	// (c) who may use database/sql
 	for _, pk := range c.P.Roots {
 		if pk.PkgPath == pkgSqlite || pk.PkgPath == pkgPostgres {
@@ -1664,7 +1829,23 @@ func ruleStmtPrepared(c *Ctx) {
 			if !ok {
 				return nil
 			}
-			if fn, ok := calleeOf(info, call).(*types.Func); !ok || fn.Name() != "Prepare" || fn.Pkg() == nil || fn.Pkg().Path() != "database/sql" {
+			fn, ok := calleeOf(info, call).(*types.Func)
+			if !ok {
+				return nil
+			}
+			// a helper of the package that prepares into the variable it is handed by address (it
+			// returns nil only with the statement set)
+			if fn.Pkg() == b.Pkg.Types {
+				if pi, _, isHelper := prepareHelper(b.Pkg, fn); isHelper && pi < len(call.Args) {
+					if u, ok := ast.Unparen(call.Args[pi]).(*ast.UnaryExpr); ok && u.Op == token.AND {
+						if id, ok := ast.Unparen(u.X).(*ast.Ident); ok {
+							return []string{"ready:" + id.Name}
+						}
+					}
+				}
+				return nil
+			}
+			if fn.Name() != "Prepare" || fn.Pkg() == nil || fn.Pkg().Path() != "database/sql" {
 				return nil
 			}
 			if id, ok := as.Lhs[0].(*ast.Ident); ok {
@@ -1730,4 +1911,55 @@ func ruleStmtPrepared(c *Ctx) {
 	}
 	c.count("prepared_statement_uses", n)
 	c.floor("handler calls that take a prepared statement", n, 30)
+}
+
+// txWrapperOf: Execute hands a function literal to a method of the same package that begins the SQL
+// transaction: returns that method, the literal and the call.
+func txWrapperOf(pk *packages.Package, fd *ast.FuncDecl) (*ast.FuncDecl, *ast.FuncLit, *ast.CallExpr) {
+	info := pk.TypesInfo
+	var wfd *ast.FuncDecl
+	var lit *ast.FuncLit
+	var wcall *ast.CallExpr
+	n := 0
+	ast.Inspect(fd.Body, func(nd ast.Node) bool {
+		call, ok := nd.(*ast.CallExpr)
+		if !ok {
+			return true
+		}
+		fn, ok := calleeOf(info, call).(*types.Func)
+		if !ok || fn.Pkg() != pk.Types {
+			return true
+		}
+		var fl *ast.FuncLit
+		for _, a := range call.Args {
+			if l, ok := ast.Unparen(a).(*ast.FuncLit); ok {
+				fl = l
+			}
+		}
+		if fl == nil {
+			return true
+		}
+		cand := funcDeclOf(pk, fn)
+		if cand == nil || cand.Body == nil {
+			return true
+		}
+		begins := false
+		ast.Inspect(cand.Body, func(x ast.Node) bool {
+			if c2, ok := x.(*ast.CallExpr); ok {
+				if f2, ok := calleeOf(info, c2).(*types.Func); ok && f2.Pkg() != nil && f2.Pkg().Path() == "database/sql" && strings.HasPrefix(f2.Name(), "Begin") {
+					begins = true
+				}
+			}
+			return true
+		})
+		if begins {
+			wfd, lit, wcall = cand, fl, call
+			n++
+		}
+		return true
+	})
+	if n != 1 {
+		return nil, nil, nil
+	}
+	return wfd, lit, wcall
 }
